@@ -254,7 +254,16 @@ func generateMore(suite string, seed uint64, i int, r *rng, id string, g gp) *Ca
 	case "c11-deep", "e2e-big": // more than 64 layers (a long spine with branches, rejoining chords and pendants) or very wide layers
 		var es [][2]int
 		n := 0
-		if suite == "c11-deep" || r.chance(2, 3) {
+		if suite == "e2e-big" && r.chance(1, 5) { // a handful of nodes joined by 60..200 parallel, antiparallel and self-loop edges
+			n = r.rangeIn(2, 4)
+			for m := r.rangeIn(60, 200); m > 0; m-- {
+				a, b := r.intn(n), r.intn(n)
+				if a == b && !r.chance(1, 6) {
+					b = (a + 1) % n
+				}
+				es = append(es, [2]int{a, b})
+			}
+		} else if suite == "c11-deep" || r.chance(2, 3) {
 			L := r.rangeIn(66, 130)
 			for i := 0; i+1 < L; i++ {
 				es = append(es, [2]int{i, i + 1})
